@@ -9,6 +9,7 @@ import (
 	"fmt"
 	"sort"
 	"strings"
+	"time"
 
 	"github.com/sarchlab/akita/v5/timing"
 
@@ -97,7 +98,19 @@ func genEntity(r *hx.Rand, kind string, used map[string]bool, now uint64) entSpe
 				n = e.Cap
 			}
 			a := r.U64n(e.Cap - n + 1)
-			e.Writes = append(e.Writes, writeSpec{Addr: a, Data: r.Bytes(int(n))})
+			// an allocated unit need not hold a non-zero byte: units that were only read, written
+			// with zeros, or written and cleared again are allocated too and are part of the payload
+			switch r.Pick(5, 2, 2, 1) {
+			case 0:
+				e.Writes = append(e.Writes, writeSpec{Addr: a, Data: r.Bytes(int(n))})
+			case 1:
+				e.Writes = append(e.Writes, writeSpec{Addr: a, Data: make([]byte, n)})
+			case 2:
+				e.Writes = append(e.Writes, writeSpec{Addr: a, Data: make([]byte, n), Read: true})
+			default:
+				e.Writes = append(e.Writes, writeSpec{Addr: a, Data: r.Bytes(int(n))},
+					writeSpec{Addr: a, Data: make([]byte, n)})
+			}
 		}
 	case "pagetable":
 		e.Name = pickName(r, freeNames, used)
@@ -400,11 +413,44 @@ func pack(ents []tarEnt) []byte {
 	return writeTarGz(out)
 }
 
+// packWithClaim writes the entries like pack, except that the header of entry k claims
+// `claim` bytes; the entry's real data follows, and the stream ends right after it.
+func packWithClaim(ents []tarEnt, k int, claim int64) []byte {
+	var buf bytes.Buffer
+	gz := gzip.NewWriter(&buf)
+	gz.ModTime = time.Unix(0, 0)
+	tw := tar.NewWriter(gz)
+	for i, e := range ents {
+		h := &tar.Header{Name: e.Name, Mode: 0o600, Size: int64(len(e.Data)), ModTime: time.Unix(0, 0),
+			Typeflag: tar.TypeReg, Format: tar.FormatPAX}
+		if i == k {
+			h.Size = claim
+		}
+		if err := tw.WriteHeader(h); err != nil {
+			panic(err)
+		}
+		n := len(e.Data)
+		if int64(n) > h.Size {
+			n = int(h.Size)
+		}
+		if _, err := tw.Write(e.Data[:n]); err != nil {
+			panic(err)
+		}
+		if i == k {
+			break // the writer cannot continue after a short entry: the stream ends here
+		}
+	}
+	tw.Flush() // pads what it can; an unfinished entry is reported and ignored
+	gz.Close()
+	return buf.Bytes()
+}
+
 var tamperKinds = []string{
 	"intact", "reorder", "no-build-id", "dup-build-id", "empty-build-id", "drop-entity",
 	"dup-entity", "alias-entity", "unknown-entry", "bad-escape", "dir-entry", "symlink-entry",
 	"payload-junk", "payload-swap", "payload-mutated", "kind-swap",
 	"bit-flip", "truncate", "tar-garbage", "not-gzip", "empty-file", "trailing-garbage",
+	"oversize-header", "oversize-header-first", "undersize-header",
 }
 
 func entityIdx(r *hx.Rand, ents []tarEnt) int {
@@ -507,6 +553,20 @@ func genTamper(r *hx.Rand, kind string) simInput {
 				e.Kind, e.InCap, e.OutCap = "port", 0, 0
 			}
 		}
+	case "oversize-header", "oversize-header-first", "undersize-header":
+		// a well-formed gzip + tar stream in which one entry's HEADER claims a size that has
+		// nothing to do with the bytes that follow (2^48 .. 2^62, or fewer bytes than present)
+		i := entityIdx(r, ents)
+		if kind == "oversize-header-first" {
+			i = 0
+		}
+		// 2^48 .. 2^62: beyond anything that can be allocated, so that a reader which trusts the
+		// header fails in a way the harness survives (a recoverable panic, not an out-of-memory kill)
+		claim := int64(1)<<uint(48+r.Intn(15)) + int64(r.Intn(1000))
+		if kind == "undersize-header" {
+			claim = int64(r.Intn(len(ents[i].Data) + 1))
+		}
+		raw = packWithClaim(ents, i, claim)
 	case "bit-flip":
 		raw = pack(ents)
 		for k := 1 + r.Intn(3); k > 0; k-- {
